@@ -390,6 +390,8 @@ func main() {
 		writeIfChanged(filepath.Join(outDir, g.name+".lean"), emitGroup(g))
 		keep[g.name+".lean"] = true
 	}
+	writeIfChanged(filepath.Join(outDir, "Accesses.lean"), emitAccesses())
+	keep["Accesses.lean"] = true
 	// delete stale generated modules
 	ents, _ := os.ReadDir(outDir)
 	for _, e := range ents {
